@@ -66,6 +66,7 @@ def main(argv=None):
     fn_records = []
     libs = set()
     two_solvers = [0, 0]
+    reverified = []
     inlined_all = set()
     declassified = []
     exempt = []
@@ -131,6 +132,27 @@ def main(argv=None):
                 filtered_out[0] += len(rec["obligations"]) - len(keep)
                 rec["obligations"] = keep
             V.discharge(rec["obligations"])
+            bad_ = [ob for ob in rec["obligations"] if ob.result is None or ob.result.status != "unsat"]
+            if bad_ and not rec["error"] and not isinstance(n, tuple) and len(bad_) <= 40:
+                # second opinion before an alarm: the function is executed symbolically once more and the obligations that
+                # failed are generated and discharged again (verdict cache off).  A proof found now is a proof; an
+                # obligation that fails twice is reported.  Counted in the evidence (reverified_after_failure).
+                try:
+                    saved_cache = smt.USE_CACHE
+                    smt.USE_CACHE = False
+                    rec2 = V.verify_function(variants[n][0], contract=variants[n][1]) if n in variants else V.verify_function(have[n])
+                    names_ = {ob.name for ob in bad_}
+                    again = [ob for ob in rec2["obligations"] if ob.name in names_]
+                    if not rec2["error"] and len(again) == len(bad_):
+                        V.discharge(again)
+                        byname = {ob.name: ob for ob in again}
+                        for i_, ob in enumerate(rec["obligations"]):
+                            nb = byname.get(ob.name)
+                            if nb is not None and nb.result is not None and nb.result.status == "unsat" and (ob.result is None or ob.result.status != "unsat"):
+                                rec["obligations"][i_] = nb
+                                reverified.append(ob.name)
+                finally:
+                    smt.USE_CACHE = saved_cache
             for ob in rec["obligations"]:
                 ob.config = cfgname
                 ob.fullname = ob.name + ("/" + cfgname if len(configs) > 1 else "")
@@ -338,6 +360,7 @@ def main(argv=None):
             "solver_seconds": round(solver_secs, 2),
             "smt_verdicts_confirmed_by_two_solvers": two_solvers[0],
             "smt_verdicts_from_one_solver_only": two_solvers[1],
+            "reverified_after_failure": sorted(reverified),
             "slowest_obligation": {"name": slowest[0], "secs": slowest[1]},
             "covers": covers,
             "ring_lemma_certificates_checked": ncerts,
